@@ -54,7 +54,7 @@ def execute(case, inject):
     from haiway import cache
 
     limit, exp, callers, invs = case["limit"], case["exp"], case["callers"], case["invs"]
-    obs = {"invs": [], "calls": [], "results": {}, "cancelled_at": {}, "hang": False}
+    obs = {"invs": [], "calls": [], "results": {}, "cancelled_at": {}, "hang": False, "bystander_bad": [], "bystander_calls": 0}
     tasks: list = []
     current: dict = {}
     kw = {"limit": limit}
@@ -88,10 +88,13 @@ def execute(case, inject):
                 raise CErr(idx)
             return Val(idx)
 
+        # one decorator object per case (a reusable preset), applied to the function under test and to a bystander
+        preset = cache(**kw)
+        extra: list = []
         if case.get("method"):
 
             class Holder:
-                @cache(**kw)
+                @preset
                 @inspect.markcoroutinefunction
                 def fn(self, key):
                     return body(*register(key))
@@ -99,10 +102,33 @@ def execute(case, inject):
             fn = Holder().fn
         else:
 
-            @cache(**kw)
+            @preset
             @inspect.markcoroutinefunction
             def fn(key):
                 return body(*register(key))
+
+        if case.get("bystander"):
+            # a SECOND function cached through the same decorator object, called with the same keys while the first one's
+            # invocations are in flight: it must run its own function and get its own results
+
+            @preset
+            async def other(key):
+                obs["bystander_calls"] += 1
+                await asyncio.sleep(0.25)
+                return ("other", key)
+
+            async def bystander():
+                for at in (0.125, 1.125):
+                    await asyncio.sleep(max(0.0, at - loop.time()))
+                    for k in sorted({c["key"] for c in callers}):
+                        try:
+                            r = await other(k)
+                        except BaseException as exc:  # noqa: BLE001 - the observation
+                            r = exc
+                        if r != ("other", k):
+                            obs["bystander_bad"].append((k, repr(r)))
+
+            extra.append(loop.create_task(bystander()))
 
         async def caller(i):
             c = callers[i]
@@ -125,6 +151,8 @@ def execute(case, inject):
         await asyncio.wait(tasks)
         # let every invocation finish
         await asyncio.sleep(max([s["dur"] for s in invs] + [0]) + 1)
+        if extra:
+            await asyncio.wait(extra)
         return None
 
     hooks = {}
@@ -151,6 +179,8 @@ def judge(case, obs, out: Outcome, inject):
     if obs["hang"]:
         out.violate("term", f"C13.term/hang/{tag}", f"inject={inject}")
         return
+    for k, r in obs["bystander_bad"][:2]:
+        out.violate("share", f"C13.share/another-cached-function-received-a-foreign-result/{tag}", f"second function called with key {k} got {r}")
     invs = obs["invs"]
     # attribute new invocations to calls: an invocation started at call time by that call
     calls = obs["calls"]
@@ -302,7 +332,7 @@ def strategy(tier):
         callers = []
         for _ in range(n):
             callers.append({"key": draw(st.integers(0, nkeys - 1)), "at": draw(st.sampled_from([0, 0, 0.25, 0.5, 0.75, 1, 1.25, 2, 2.5, 3.5]))})
-        case = {"limit": limit, "exp": exp, "method": draw(st.booleans()), "callers": callers, "invs": invs, "inject": None}
+        case = {"limit": limit, "exp": exp, "method": draw(st.booleans()), "callers": callers, "invs": invs, "inject": None, "bystander": draw(st.integers(0, 2)) == 0}
         if tier == "thorough" and draw(st.booleans()):
             # generated double fault (single faults are enumerated for every program anyway)
             case["inject"] = [
